@@ -3,9 +3,9 @@
 import json
 ids = [json.loads(l)["id"] for l in open("/verif/properties.jsonl")]
 TB = ("Trusted: Lean 4.33 kernel (propext, Classical.choice, Quot.sound only); Spec/*.lean transcriptions; the Go translator "
-      "and correspondence harness; dependencies answered as oracles (Go crypto, crypto/x509, go-jose, the set of linked hash algorithms); "
+      "and correspondence harness; dependencies answered as oracles (Go crypto, crypto/x509 parsing and path validation, go-jose's signature check, the decoding of the metadata payload, the set of linked hash algorithms); "
       "encoding/asn1 (key description, Apple nonce, AAGUID extension, SAN/RDN walk), encoding/json (client data), net/url (host extraction), go-tpm "
-      "TPMS_ATTEST / TPMT_PUBLIC codec, base64, uuid and fxamacker/cbor are Lean MODELS of the installed versions, tied to those packages by differential execution, not by translation of their source. "
+      "TPMS_ATTEST / TPMT_PUBLIC codec, go-jose's compact JWS parsing / signing input / SafetyNet claims decoding, base64, uuid and fxamacker/cbor are Lean MODELS of the installed versions, tied to those packages by differential execution, not by translation of their source. "
       "The theorems are about the Lean model; the model is tied to /repo by regenerated tables (translator) and by "
       "differential execution (harness) on every run.")
 claimed = {
@@ -31,7 +31,9 @@ claimed = {
         "packed x5c v3 / not CA / C,O,CN non-empty / OU literal / AAGUID extension non-critical and equal; packed self alg = key alg and credential key signed; fido-u2f "
         "exactly one certificate with P-256 key and EC2 credential key; tpm magic / type / name = digest of pubArea under pubArea.nameAlg / pubArea key = credential key / "
         "AIK v3, not CA, EKU, SAN hardware details; android-key certificate key = credential key, allApplications absent in both lists, TEE purpose SIGN and origin "
-        "GENERATED, challenge = hash; apple certificate key = credential key and nonce; SafetyNet chain for attest.android.com, claims, nonce), plus the dispatcher. "
+        "GENERATED, challenge = hash; apple certificate key = credential key and nonce; SafetyNet: the response is a compact JWS (Lean model of go-jose's parsing) whose x5c entries are "
+        "certificates, the first valid for attest.android.com with the others as intermediates, signed under that certificate's key, with claims that decode and a nonce equal to "
+        "SHA-256(authData || clientDataHash)), plus the dispatcher. "
         "Tie: one differential stream per requirement with everything else re-signed consistently.",
    ref="DESIGN.md §8 C04", technique="Lean 4 proof (accept iff requirement list, per format, for all environments) + per-requirement differential execution",
    note="Known finding D14 (Keymaster NULL-typed elements in the published encoding are not read by encoding/asn1) is reported as KNOWN-FINDING."),
@@ -78,13 +80,17 @@ claimed = {
         "rendered from well-formed components reports exactly its host component whatever stands in user-info, port, path, query and fragment, and hostOf_no_delimiters that a reported host "
         "never contains / ? # @ or a backslash."),
  "C15": dict(
-   text="Lean theorems: UnmarshalMetadataBLOBPayload (model) returns a payload iff the BLOB parses with at least one header, EVERY header's chain validates against "
-        "the CONFIGURED pool (default = embedded root; the last WithRootCA wins) and the claims verify under the leaf of the first chain, the payload being the one so "
-        "verified (blob_iff, for every environment); rejection corollaries per deviation; AAGUID text form round-trips for all 2^128 values, the other accepted "
-        "forms denote the same value, the text form is injective. Tie: differential execution on generated PKIs / JWS with 14 deviation kinds (ground truth by "
-        "construction), segment mutations, the recorded BLOB, and AAGUID strings.",
-   ref="DESIGN.md §8 C15", technique="Lean 4 proof of the composition over PKI/JWS oracles + differential execution",
-   note="PARTIAL: x509 path validation and JWS verification themselves are assumed (crypto/x509, go-jose)."),
+   text="Lean theorems: UnmarshalMetadataBLOBPayload (model) returns a payload iff (compact serialisation, through the Lean model of go-jose's ParseSigned) the token is "
+        "three base64url parts with a decodable protected header, every x5c entry is a certificate, there is at least one, the FIRST validates against the CONFIGURED pool "
+        "(default = embedded root; the last WithRootCA wins) with the others as intermediates, the signature verifies under that first certificate's key, and the payload "
+        "returned is the decoding of the token's own payload segment, the one inside the verified signing input (blob_iff, blob_payload_is_signed, C04Jws.signingInput_inj; "
+        "for every environment); rejection corollaries per deviation (unparsable, missing chain, chain not valid for the pool, signature not valid under the first key); "
+        "AAGUID text form round-trips for all 2^128 values, the other accepted forms denote the same value, the text form is injective. Tie: differential execution on "
+        "generated PKIs / JWS with 31 deviation kinds (ground truth by construction, CA constraints included), segment mutations, the recorded BLOB, AAGUID strings, and the "
+        "jws.* streams comparing the Lean JWS model with go-jose.",
+   ref="DESIGN.md §8 C15, §0.2 (JWS)", technique="Lean 4 proof of the composition over a Lean model of go-jose's JWS parsing and PKI / signature oracles + differential execution",
+   note="PARTIAL: x509 parsing and path validation, the signature check and the JSON decoding of the payload into MetadataBLOBPayload are assumed (crypto/x509, go-jose); the JSON serialisation "
+        "of JWS and a jwk header member are answered by go-jose as a whole (BlobOK.opaque)."),
  "C17": dict(
    text="Lean theorems: UnmarshalVendorID accepts exactly 'id:' + eight hexadecimal digits and returns those four bytes (vendorId_iff, all strings); the regenerated "
         "vendor table is the reviewed one and a subset of the TCG registry plus the documented pseudo vendor; hardware details are extracted iff every string-valued "
